@@ -47,6 +47,19 @@ CHECKS["C19"] = dict(
     text="EntryLog.tla defines every answer of the entry log (last/first index, term at index, entries of a range, entries to save, entries to apply) as a function of the logical log; TLC checks the specification's invariants (re-appended entries are saved again, nothing applied before committed and handed out for saving) exhaustively for small bounds and recomputes every answer of the real entryLog over the real LogReader after every operation of thousands of seeded sequences (appends, conflicts at any position, commit advances, Update/Commit cycles with apply lag, restores, compactions, resizes); slices handed out earlier must never change.",
     note="Trusted: TLC; the elsim driver (harness/logdb) and a faithful in-memory ILogDB under the LogReader; overlay-added accessors in package raft (harness/raftexport).")
 
+RSM_NOTE = ("Trusted: TLC; the smsim driver (harness/rsm) incl. its register-file user state machine and flat-directory "
+            "snapshotter built from the real snapshot writer/reader; LRUMaxSessionCount lowered to 2..4 through the package variable.")
+CHECKS["C05"] = dict(
+    category="model_checking", design_ref="5 C05", engine="tlc+smsim",
+    technique="TLA+ spec (RSM.tla) model-checked by TLC; TLC trace validation of committed-entry streams applied to the real rsm.StateMachine",
+    text="RSM.tla defines what every committed entry does to sessions, user state and the reported result; TLC checks AtMostOnce / RetrySameResult / UnknownSessionRejected / AckedDuplicateIgnored exhaustively (3 clients, LRU limit 2, all duplicate placements up to length 6) and recomputes callback and full projected state (sessions in LRU order with cached results) of real rsm.StateMachine instances after every batch of thousands of seeded streams with retries, acknowledgements, evictions, unregistrations, snapshots saved and installed on fresh and on lagging instances.",
+    note=RSM_NOTE)
+CHECKS["C08"] = dict(
+    category="model_checking", design_ref="5 C08", engine="tlc+smsim",
+    technique="TLA+ spec (RSM.tla) + TLC trace validation: state recovered from a snapshot = state saved, then same suffix applied next to the uninterrupted instance",
+    text="At random cuts of seeded entry streams a snapshot is saved by a real rsm.StateMachine (regular and concurrent, with and without compression) and recovered into a fresh or a lagging instance, which then applies the rest of the stream next to the uninterrupted instance; TLC requires the recovered projected state (user data, sessions incl. LRU order, membership, index, term) to equal the saved one and every later state/result of the twin to equal the specification's fold of the log.",
+    note=RSM_NOTE + " Compaction-covered-by-snapshot and snapshot catch-up of lagging followers are checked at protocol level by the rsim traces of C02 (CanCompact / InstallSnapshot conformance); on-disk state machines are not driven yet.")
+
 NOT_APPLICABLE = {
     "C13": "encode/decode fidelity and size arithmetic of hand-written codecs over the numeric input space: no state/transition structure for a TLA+ specification to describe (DESIGN.md section 6)",
 }
@@ -100,6 +113,8 @@ def main():
             {"name": "tlc+rsim", "path": "/verif/lib/raftfamily.py",
              "serves_properties": ["C02", "C03", "C06", "C07", "C18"],
              "kind_free_text": "TLC exhaustive model checking of MCRaft + TLC trace validation (RaftTrace) of executions of the real internal/raft recorded by the rsim harness"},
+            {"name": "tlc+smsim", "path": "/verif/lib/rsmchecks.py", "serves_properties": ["C05", "C08", "C07"],
+             "kind_free_text": "TLC model checking of MCRSM + TLC trace validation (RSMTrace) of real rsm.StateMachine instances driven by harness/rsm/smsim_test.go"},
             {"name": "tlc+elsim", "path": "/verif/lib/c19.py", "serves_properties": ["C19"],
              "kind_free_text": "TLC model checking of MCEntryLog + TLC trace validation (EntryLogTrace) of the real entryLog/LogReader driven by harness/logdb/elsim_test.go"},
         ],
